@@ -69,9 +69,78 @@ fn strip(v: &adblock::blocker::BlockerResult) -> String {
     format!("{},{},{},{}", v.matched, v.important, v.exception.is_some(), v.rewritten_url.clone().unwrap_or_default())
 }
 
+/// Histories of `add_resource` calls, some of them rejected: a rejected call leaves nothing behind. After each history the
+/// engine answers like one that was given exactly the accepted resources in one batch (accepted = no identifier of the
+/// resource, name or alias, is known yet), and like the model, which replays the attempted calls itself.
+pub fn run_res_hist(seed: u64, n: usize, out: &mut Out) {
+    use adblock::resources::{MimeType, ResourceType};
+    let mut r = Rng::new(seed ^ 0x7265735f68697374);
+    let idents = ["shim.js", "first.js", "taken.js", "px.gif", "alt.js", "noop.js"];
+    for _ in 0..n {
+        let mut lines: Vec<String> = vec![];
+        for id in idents.iter() {
+            if r.pct(70) {
+                lines.push(format!("||ads.test/{}$script,{}={}", id, r.pick(&["redirect", "redirect-rule", "redirect"]), id));
+            }
+        }
+        lines.push("||ads.test^$script".to_string());
+        let cos: Vec<String> = idents.iter().filter(|i| i.ends_with(".js")).map(|i| format!("shop.test##+js({})", i)).collect();
+        let mut all = lines.clone();
+        all.extend(cos.iter().cloned());
+        let mut engine = Engine::from_rules_parametrised(&all, Default::default(), true, r.pct(50));
+        let mut attempted = vec![];
+        let mut accepted = vec![];
+        let mut known: BTreeSet<String> = BTreeSet::new();
+        let mut hist = vec![];
+        for k in 0..3 + r.below(5) {
+            let name: &str = r.pick(&idents);
+            let mut aliases: Vec<&str> = vec![];
+            for _ in 0..r.below(4) {
+                let a: &str = r.pick(&idents);
+                aliases.push(a);
+            }
+            let kind = if name.ends_with(".gif") { ResourceType::Mime(MimeType::ImageGif) } else { ResourceType::Mime(MimeType::ApplicationJavascript) };
+            let res = mk_resource(name, &aliases, kind, &format!("body{}-of-{}", k, name), 0);
+            let expect = !std::iter::once(&res.name).chain(res.aliases.iter()).any(|i| known.contains(i));
+            let got = engine.add_resource(res.clone()).is_ok();
+            hist.push(json!({"add_resource": name, "aliases": aliases, "accepted": got}));
+            if got != expect {
+                out.fail("add-resource-acceptance-depends-on-rejected-calls", None, json!({"history": hist.clone(), "expected_accepted": expect}));
+            }
+            if expect {
+                known.insert(res.name.clone());
+                known.extend(res.aliases.iter().cloned());
+                accepted.push(res.clone());
+            }
+            attempted.push(res);
+        }
+        let mut fresh = Engine::from_rules_parametrised(&all, Default::default(), true, false);
+        fresh.use_resources(accepted.clone());
+        let rules = parse_all(&lines);
+        let case = crate::c01::Case { lines: lines.clone(), optimize: false, tags: vec![] };
+        for id in idents.iter() {
+            if let Some(q) = make_req(&format!("https://ads.test/{}", id), "https://shop.test/", "script") {
+                let (a, b) = (engine.check_network_request(&q.req), fresh.check_network_request(&q.req));
+                if a.redirect != b.redirect || a.matched != b.matched {
+                    out.fail("resource-history-vs-fresh-engine", None, json!({"rules": lines, "history": hist.clone(), "url": q.url,
+                        "redirect_after_history": a.redirect, "redirect_fresh": b.redirect}));
+                }
+                crate::c01::emit(out, &case, &engine, &rules, &attempted, &q, "chk-after-resource-adds");
+            }
+        }
+        let (a, b) = (engine.url_cosmetic_resources("https://shop.test/"), fresh.url_cosmetic_resources("https://shop.test/"));
+        let set = |s: &str| s.lines().map(|l| l.to_string()).collect::<BTreeSet<String>>();
+        if set(&a.injected_script) != set(&b.injected_script) {
+            out.fail("resource-history-vs-fresh-engine(scriptlets)", None, json!({"history": hist.clone(), "after_history": a.injected_script, "fresh": b.injected_script}));
+        }
+        out.bump("resource_histories");
+    }
+}
+
 pub fn run(seed: u64, n: usize, out: &mut Out, focus_tags: bool) {
     if !focus_tags {
         run_rm(seed, n, out);
+        run_res_hist(seed, (n / 4).max(20), out);
     }
     let mut r = Rng::new(seed);
     let resources = std_resources();
